@@ -48,8 +48,8 @@ class FsProjector:
         for sec in ("folders", "deleted_folders"):
             for fname, fst in st[sec].items():
                 rep.append(f"{sec}:{fname}")
-                if sec == "deleted_folders":
-                    continue
+                if sec == "deleted_folders" and sum(1 for d in fs.deleted_folders.values() if d.name == fname) != 1:
+                    continue  # (the report is keyed by name: the content of a name shared by two deleted folders is not judged)
                 for lst in ("files", "deleted_files"):
                     for n in fst.get(lst, {}):
                         rep.append(f"{sec}:{fname}/{n}:{lst}")
